@@ -65,6 +65,15 @@ def oracle_identity(case, rec):
         rec.cls('fam=' + case['gen']['fam'])
     if not math.isfinite(got) or abs(got - ref) > t:
         raise Violation(f'corrected score {got!r} != H(Y*|X)-H(Y|X) = {ref!r} (tol {t:.2e}), n={len(Xl)}')
+    if case.get('both') and 'lagged' not in case:
+        # the kernel loops over the strata of its second argument: the swapped call exercises the other vector as strata source
+        ref2 = rm.corrected_ref(Xl, Yl)
+        try:
+            got2 = float(cut.mutual_info_estimator_numba(Xa, Ya, np.float32(1.0), True))
+        except Exception as e:  # noqa: BLE001
+            raise Violation(f'estimator raised {type(e).__name__}: {str(e)[:300]} (swapped arguments)', kind='C03/exception')
+        if not math.isfinite(got2) or abs(got2 - ref2) > t:
+            raise Violation(f'corrected score with swapped arguments {got2!r} != {ref2!r} (tol {t:.2e}), n={len(Xl)}')
     # heuristic name -> correction flag, in a generated order of calls within one process (a history): the flag must follow
     # the name passed to THIS call, whatever earlier calls used
     if len(Xl) <= 5000:
@@ -152,7 +161,7 @@ def oracle_ranking(case, rec):
                         f'(n={n}, seed={case["k"]})')
 
 
-ORACLES = {'C03/exception': oracle_identity, 'C03/high-card': oracle_identity, 'C03/views': oracle_identity, 'C03/wide': oracle_identity, 'C03/identity': oracle_identity, 'C03/exhaustive': oracle_identity, 'C03/heuristic-flag': oracle_identity,
+ORACLES = {'C03/many-strata': oracle_identity, 'C03/exception': oracle_identity, 'C03/high-card': oracle_identity, 'C03/views': oracle_identity, 'C03/wide': oracle_identity, 'C03/identity': oracle_identity, 'C03/exhaustive': oracle_identity, 'C03/heuristic-flag': oracle_identity,
            'C03/corollaries': oracle_corollaries, 'C03/constant-feature': oracle_corollaries,
            'C03/identifier-feature': oracle_corollaries, 'C03/self': oracle_corollaries, 'C03/ranking': oracle_ranking}
 
@@ -228,6 +237,7 @@ def run(ctx):
         Clause('C03/ranking', planted_case, oracle_ranking, quick=48, thorough=3000, quick_shards=6),
         Clause('C03/high-card', lambda: gens.highcard_pair(), oracle_identity, quick=24, thorough=600, quick_shards=8),
         Clause('C03/views', lambda: gens.lagged_pair(), oracle_identity, quick=200, thorough=10000, quick_shards=2),
+        Clause('C03/many-strata', lambda: gens.manystrata_pair(), oracle_identity, quick=2, thorough=32, quick_shards=2, thorough_shards=16),
         Clause('C03/wide', lambda: gens.wide_pair(), oracle_identity, quick=2, thorough=32, quick_shards=2, thorough_shards=16),
     ]
     drive(ctx, clauses)
